@@ -1,3 +1,5 @@
 import PfVerif.Audit.Tool
 import PfVerif.Props.C05
+import PfVerif.Lemmas.C05QCVaR
 #audit_module PfVerif.Props.C05
+#audit_module_ns PfVerif.Lemmas.C05QCVaR PfVerif.C05QCVaR
